@@ -84,6 +84,35 @@ def _variants(b, bp, mi, tree, rng, cls):
 
     yield "unknown", with_unknown
 
+    def with_nested_unknown(t):
+        """unknown records INSIDE plain sub-messages (also sub-messages whose only content is unknown)"""
+        from ..wiregen import WireGen
+
+        data = bytes(bp.make(mi, t, "ctor"))
+        wg = WireGen(b, rng)
+        fields = {f.number: f for f in mi.fields}
+        recs = spec.read_records(data)
+        raws = [r.raw for r in recs]
+        done = False
+        for i, r in enumerate(recs):
+            fi = fields.get(r.number)
+            if fi is not None and r.wt == 2 and fi.kind == "message" and fi.wkt is None and fi.label != "map":
+                sub_known = {f.number for f in b.msgs[fi.type_name].fields}
+                raws[i] = spec.enc_record(r.number, 2, r.value + wg.unknown_record(sub_known))
+                done = True
+        for fi in mi.fields:
+            if not done and fi.kind == "message" and fi.wkt is None and fi.label in ("singular", "optional", "repeated"):
+                # a sub-message holding nothing but an unknown field
+                sub_known = {f.number for f in b.msgs[fi.type_name].fields}
+                raws.append(spec.enc_record(fi.number, 2, wg.unknown_record(sub_known)))
+                done = True
+                break
+        if not done:
+            raise ValueError("no plain sub-message field")
+        return cls().parse(b"".join(raws))
+
+    yield "nested-unknown", with_nested_unknown
+
 
 def check_case(b, bp, ref, mi, tree, res: Result, w, rng):
     cls = b.bp_class(mi.full_name)
@@ -102,9 +131,9 @@ def check_case(b, bp, ref, mi, tree, res: Result, w, rng):
             def pred(t, kind=kind):
                 rng.setstate(st)
                 return not any(k == kind for k, _ in _observe(mk(t)))
-            bad = isolate(b, mi, tree, pred) if vname != "unknown" else []
-            if vname == "unknown":
-                sigs = [["unknown-fields", "any"]]
+            bad = isolate(b, mi, tree, pred) if vname not in ("unknown", "nested-unknown") else []
+            if vname in ("unknown", "nested-unknown"):
+                sigs = [[vname + "-fields", "any"]]
             else:
                 sigs = [carrier_sig(b, fi, v) for fi, v in bad] or [["combination", "?"]]
             for cs in sigs:
